@@ -319,6 +319,23 @@ def real_recv(cfg, pr, seq, cs, early_ok, max_early, processed, recv_limit, htyp
             header.type, bytes(parser.bytes))
 
 
+def real_recv_raw(cfg, pr, seq, cs, raw):
+    """RecordLayer.recvRecord on raw wire bytes (used for SSLv2-framed input) -> ('ok', ...) | ('err', name)"""
+    sock = CaptureSock(raw)
+    rl = make_layer(cfg, sock)
+    rl._readState = make_state(cfg, pr, seq, cs)
+    rl.plaintext_alerts_ok = False
+    try:
+        res = None
+        for res in rl.recvRecord():
+            if res in (0, 1):
+                return ("err", "would-block")
+            break
+    except Exception as e:  # noqa: B902 - classified
+        return ("err", exc_name(e))
+    return ("ok", res[0].type, bytes(res[1].bytes))
+
+
 def recv_line(cfg, pr, seq, cs, early_ok, max_early, processed, recv_limit, htype, hver, body, pa_ok=False):
     return "recv %s %s %d %s %d %d %d %d %d %d %d %d %s" % (
         cfg_tokens(cfg), prims_tokens(pr), seq, hx(cs if cs is not None else b""), int(early_ok), max_early,
